@@ -57,7 +57,13 @@ class ReconnH(explore.Harness):
         self.app_tasks = []
         self.cur_port = 51826
         self.port_changed_at = None
-        self.rig.acc.handler = std_handler({("PUT", "/characteristics"): _bad_sub})
+        def _acc_list(sess, method, target, headers, body):
+            if getattr(self, "mute_list", False):
+                return None  # (a big bridge takes its time rendering the database)
+            return std_handler()(sess, method, target, headers, body)
+
+        inner = std_handler({("PUT", "/characteristics"): _bad_sub})
+        self.rig.acc.handler = lambda sess, method, target, headers, body: _acc_list(sess, method, target, headers, body) if target == "/accessories" else inner(sess, method, target, headers, body)
         self.alphabet = p.get("behaviours", BEHAVIOURS)
         self.triggers = p.get("triggers", ["zc-same", "zc-changed", "ensure", "ensure-t3", "cancel-ensure", "close", "shutdown", "drop", "drop-old", "late-lost"])
         self.max_attempts = p.get("rounds", 16)
@@ -232,6 +238,10 @@ class ReconnH(explore.Harness):
                 for second in ("zc-same", "ensure"):
                     for k in (0, 1, 2):
                         m.append(f"zc-same+{second}@{k}")
+            elif t == "list-req":
+                # the application (or the library's own configuration-change task) lists the accessory database; the answer takes its time
+                if self.pairing.is_connected and len(self.app_tasks) < 1:
+                    m.append(t)
             elif t == "app-req":
                 # an application write that the accessory leaves unanswered: it sits on the wire (or queues behind the one that does)
                 if self.pairing.is_connected and len(self.app_tasks) < 2:
@@ -388,6 +398,9 @@ class ReconnH(explore.Harness):
                 self.pairing._async_description_update(mk_description(self.cur_hosts, port=self.cur_port, s=len(self.trigger_times) + 1))
             else:
                 self._start_ensure("ensure")
+        elif k == "list-req":
+            self.mute_list = True
+            self.app_tasks.append(self.loop.create_task(self.pairing.list_accessories_and_characteristics()))
         elif k == "app-req":
             self.mute_app = True
             self.trigger_times.append((now, "app-req"))
